@@ -80,6 +80,14 @@ def gen_script(rng, progs, npass, shutdown=None, faults=False, rpcs=True, group_
                 acts.append(('rpc', rid[0], 'supervisor.signalProcess', (tgt, rng.choice(['HUP', 'USR1', '15', 'BOGUS']))))
             elif not group_forms:
                 acts.append(('rpc', rid[0], 'supervisor.stopProcess', (tgt, True)))
+            elif m < 0.86:
+                acts.append(('rpc', rid[0], rng.choice(['supervisor.signalAllProcesses', 'supervisor.signalAllProcesses']), (rng.choice(['USR1', 'HUP', '15']),)))
+            elif m < 0.90:
+                g = ns[nm].split(':')[0]
+                acts.append(('rpc', rid[0], rng.choice(['supervisor.signalProcessGroup']), (g, rng.choice(['USR1', 'HUP']))))
+            elif m < 0.93:
+                g = ns[nm].split(':')[0]
+                acts.append(('rpc', rid[0], rng.choice(['supervisor.startProcessGroup', 'supervisor.stopProcessGroup']), (g, rng.random() < 0.5)))
             elif m < 0.95:
                 acts.append(('rpc', rid[0], 'supervisor.stopAllProcesses', (rng.random() < 0.5,)))
             else:
@@ -299,6 +307,63 @@ def mon_c13(ctx, k, inp):
                 c['state_at_answer'] = cur.get(c['target'])
                 check_call(ctx, k, c, last_b, inp)
     return calls
+
+
+SCOPE_PRED = {
+    'startAllProcesses': ('all', lambda st: st not in RUNNING_STATES), 'startProcessGroup': ('group', lambda st: st not in RUNNING_STATES),
+    'stopAllProcesses': ('all', lambda st: st in RUNNING_STATES), 'stopProcessGroup': ('group', lambda st: st in RUNNING_STATES),
+    'signalAllProcesses': ('all', lambda st: st in (10, 20, 40)), 'signalProcessGroup': ('group', lambda st: st in (10, 20, 40)),
+}
+
+
+def mon_c13_groups(ctx, k, inp):
+    """group and all forms: exactly one entry per eligible process of the scope, none for others.  Eligibility is
+    evaluated process by process while the call runs (each single call reaps), so only processes whose state did not
+    change during the call are compared"""
+    calls = {}
+    for r in k.log:
+        kind = r['kind']
+        if kind == 'rpc-begin':
+            m = r['method'].split('.')[1]
+            if m in SCOPE_PRED:
+                calls[r['id']] = dict(method=m, args=r['args'], procs=r['procs'], scope=set(r['procs']), mood=r['mood'], kills=[], unstable=set(),
+                                      window=m.startswith('signal'))
+        elif kind == 'rpc-first-poll' and r['id'] in calls and not calls[r['id']]['method'].startswith('signal'):
+            c = calls[r['id']]
+            c['procs'] = r['procs']; c['window'] = True; c['unstable'] = set()
+        elif kind == 'event' and r['name'].startswith('PROCESS_STATE') and r.get('rpc') in calls and calls[r['rpc']]['window']:
+            calls[r['rpc']]['unstable'].add('%s:%s' % (r['group'], r['process']))
+        elif kind == 'kill' and r.get('rpc') in calls:
+            calls[r['rpc']]['kills'].append((r['pid'], r['sig'], r.get('name')))
+        elif kind == 'rpc-answer' and r.get('id') in calls:
+            c = calls.pop(r['id'])
+            if 'fault' in r or not isinstance(r.get('value'), list):
+                continue            # refused as a whole (SHUTDOWN_STATE, BAD_NAME, BAD_SIGNAL): nothing per process to compare
+            scope, pred = SCOPE_PRED[c['method']]
+            grp = c['args'][0] if scope == 'group' else None
+            # the process list is taken when the call is made, the predicate is evaluated when the deferred function first runs
+            inscope = [full for full in c['scope'] if grp is None or full.split(':')[0] == grp]
+            stable = [f for f in inscope if f not in c['unstable'] and f in c['procs']]   # removed meanwhile = not stable
+            eligible = sorted(f for f in stable if pred(c['procs'][f][0]))
+            got_all = ['%s:%s' % (e.get('group'), e.get('name')) for e in r['value'] if isinstance(e, dict)]
+            got = sorted(f for f in got_all if f in stable)
+            ctx.count('rpc-group-form:' + c['method'])
+            bad = None
+            if len(set(got_all)) != len(got_all):
+                bad = 'duplicate entries %r' % got_all
+            elif any(f not in inscope for f in got_all):
+                bad = 'entries %r outside the scope %r' % (got_all, inscope)
+            elif got != eligible:
+                bad = 'entries for %r, eligible (state unchanged during the call) were %r' % (got, eligible)
+            if bad:
+                ctx.violation('group-form-entries-wrong:' + c['method'], '%s%r: %s' % (c['method'], tuple(c['args']), bad),
+                              dict(inp, call=dict(method=c['method'], args=list(c['args']))))
+            if c['method'].startswith('signal'):
+                want = sorted(pid for full, (st, pid) in c['procs'].items() if full in eligible)
+                gotk = sorted(pid for pid, sig, nm in c['kills'] if any(c['procs'][f][1] == pid for f in stable))
+                if gotk != want:
+                    ctx.violation('group-form-signals-wrong:' + c['method'], 'signals delivered to %r, eligible children %r' % (gotk, want),
+                                  dict(inp, call=dict(method=c['method'], args=list(c['args']))))
 
 
 def check_call(ctx, k, c, b, inp):
